@@ -19,6 +19,7 @@ def registry():
     reg = {"C20": rules_protocol.check_C20, "C17": rules_protocol.check_C17}
     import rules_more
     import rules_history
+    import rules_compare
     reg.update(rules_more.REGISTRY)
     return reg
 
